@@ -1340,7 +1340,10 @@ void SZ_Finalize()
 {
 #ifdef HAVE_TIMECMPR
 	if(sz_varset!=NULL)
+	{
 		SZ_freeVarSet(SZ_MAINTAIN_VAR_DATA);
+		sz_varset = NULL; //a later SZ_Finalize() or SZ_registerVar() must not touch the freed set
+	}
 #endif
 
 	if(confparams_dec!=NULL)
